@@ -42,12 +42,13 @@ static model M;
 
 static void viol(const char *what, const char *fmt, ...)
 {
+	if (hc_san_as) return;
 	char detail[380], sig[120];
 	va_list ap; va_start(ap, fmt); vsnprintf(detail, sizeof detail, fmt, ap); va_end(ap);
 	snprintf(sig, sizeof sig, "C20:%s", what);
 	xp_violation(sig, "%s", detail);
 }
-static void on_san(const char *sig) { (void)sig; xp_count(K_SAN, 1); }
+static void on_san(const char *sig) { if (hc_san_report(sig, 0, "the query-forwarding search")) return; xp_count(K_SAN, 1); }
 
 static int snap_regions(vw_region *out, int max, char *note) { (void)max; (void)note; out[0].p = &M; out[0].n = sizeof M; return 1; }
 
@@ -205,7 +206,7 @@ int main(int argc, char **argv)
 	OPS.nletters = nlt; OPS.apply = apply; OPS.key = key; OPS.name = lname;
 	OPS.maxdepth = depth ? depth : a.thorough ? 7 : 5;
 	xp_describe_job = describe_job;
-	xp_init("C20", a.tier, 1 << 25, a.budget_s);
+	xp_init(hc_san_as ? hc_san_as : "C20", a.tier, 1 << 25, a.budget_s);
 	if (a.replay) { int j = xp_load_replay(a.replay); boot(j / nlt); eb_replay(&OPS, a.verbose); return 0; }
 	hc_quiet();
 	xp_run_jobs(6 * nlt, job, a.workers);
